@@ -59,6 +59,7 @@ type chaosNode struct {
 	LeaveErr  error
 	MetaGen   int
 	Restarts  int
+	MetaLife  int // the life whose metadata the node carries (a restart with unchanged configuration keeps it)
 	Old       []*SimNode
 	Replaced  bool // its address was taken over by a differently named node
 }
@@ -84,7 +85,7 @@ type Chaos struct {
 }
 
 func (ch *Chaos) meta(cn *chaosNode) []byte {
-	return []byte(fmt.Sprintf("%s/r%d/g%d", cn.Name, cn.Restarts, cn.MetaGen))
+	return []byte(fmt.Sprintf("%s/r%d/g%d", cn.Name, cn.MetaLife, cn.MetaGen))
 }
 
 func (ch *Chaos) spec(cn *chaosNode) NodeSpec {
@@ -281,7 +282,10 @@ func (ch *Chaos) apply(a faultAction) {
 		ch.C.Net.SetUnreachable(cn.Node.EP.Addr, false)
 		cn.Old = append(cn.Old, cn.Node)
 		cn.Restarts++
-		cn.MetaGen = 0
+		if a.P != 1 { // P = 1: the process comes back with exactly the configuration (metadata) it crashed with
+			cn.MetaLife = cn.Restarts
+			cn.MetaGen = 0
+		}
 		nd, err := ch.C.Add(ch.spec(cn))
 		if err != nil {
 			ch.C.sink.add(cn.Name, "harness/restart", "restart failed: %v", err)
@@ -355,6 +359,7 @@ func (ch *Chaos) apply(a faultAction) {
 		}
 		cn.Old = append(cn.Old, cn.Node)
 		cn.Restarts++
+		cn.MetaLife = cn.Restarts
 		cn.MetaGen = 0
 		nd, err := ch.C.Add(ch.spec(cn))
 		if err != nil {
